@@ -66,8 +66,23 @@ def case(draw, tier):
     return c
 
 
+@st.composite
+def branchy_rest_case(draw, tier):
+    """fan-out DAGs in single-operator containers with operators that OOM, driven by the tape policy: failures, retries and
+    sibling state changes between consecutive calls"""
+    from verif.checks.c07 import branchy_case
+    c = draw(branchy_case())
+    p = c["params"]
+    p["scheduler_algo"] = "rest"
+    p["allow_memory_overcommit"] = draw(st.booleans())
+    p["rest_poll_interval"] = draw(st.sampled_from([1.0, 0, 0.25, 5.0]))
+    c["policy"] = "tape"
+    c["tape"] = draw(st.lists(st.integers(0, 2 ** 16), min_size=5, max_size=60))
+    return c
+
+
 def strategy(tier):
-    return case(tier)
+    return st.one_of(case(tier), case(tier), case(tier), branchy_rest_case(tier))
 
 
 # ----------------------------------------------------------------------------- external policies (JSON in, JSON out)
@@ -436,8 +451,15 @@ def run_case(spec):
         srv.shutdown()
         srv.server_close()
         th.join(timeout=5)
-    if ctx["handler_error"]:
+    if ctx["handler_error"] and not problems:
         raise RuntimeError("oracle failed inside the HTTP handler:\n" + ctx["handler_error"])
+    if ctx["handler_error"]:
+        # the handler had already recorded that the body was not the true state; what it tripped over afterwards (e.g. an
+        # operator id of another run in the body) is a consequence of that
+        for key, msg in problems:
+            out.problem(key, msg)
+        out.label("handler_tripped_after_problem")
+        return out
     out.extra_evals = len(ctx["calls"])
     if recA.exception is not None:
         # an admissible external decision sequence must not make the run raise
